@@ -91,15 +91,20 @@ pub fn k20_2_reader_window<S: Src>(s: &mut S) {
     // must not panic (index out of bounds) for any content of a 10-byte window
     let r = read_varint64(&w);
     vcover!(s, r.is_err(), "ten continuation bytes rejected");
-    if let Ok(v) = r {
-        // the consumed prefix re-encodes to the same value when it is canonical
-        let n = inner_sizeof_varint(v);
-        s.check(n <= 10, "size of decoded value within 10");
+    match r {
+        Ok(v) => {
+            let n = inner_sizeof_varint(v);
+            s.check(n <= 10, "size of decoded value within 10");
+            // the low seven bits of the value are the low seven bits of the first byte
+            s.check((v & 0x7f) as u8 == w[0] & 0x7f, "first group decoded from first byte");
+        }
+        // drop glue of anyhow::Error (boxed dyn vtable) is a known CBMC sink and not the subject
+        Err(e) => std::mem::forget(e),
     }
 }
 
 // ---- reference decoder -------------------------------------------------------------------------
-pub const MAXREC: usize = 8;
+pub const MAXREC: usize = 6;
 
 pub struct Oracle {
     pub n: usize,
@@ -115,7 +120,7 @@ pub struct Oracle {
 /// Records until the first zero length / truncated tail. Streams here are < 128 bytes, hence every
 /// complete record has a one-byte length prefix; a prefix with the continuation bit can only start
 /// a truncated tail.
-pub fn oracle(st: &[u8], len: usize) -> Oracle {
+pub fn oracle<const N: usize>(st: &[u8; N]) -> Oracle {
     let mut o = Oracle {
         n: 0,
         start: [0; MAXREC],
@@ -126,7 +131,7 @@ pub fn oracle(st: &[u8], len: usize) -> Oracle {
     let mut p = 0usize;
     let mut k = 0;
     while k < MAXREC + 1 {
-        if p >= len {
+        if p >= N {
             break;
         }
         let b = st[p];
@@ -135,8 +140,7 @@ pub fn oracle(st: &[u8], len: usize) -> Oracle {
         }
         if b & 0x80 != 0 {
             // only legal as the beginning of a truncated final record: canonical two-byte prefix
-            // (second byte, when present, in 1..=0x7f)
-            if p + 1 < len {
+            if p + 1 < N {
                 let b1 = st[p + 1];
                 if b1 == 0 || b1 & 0x80 != 0 {
                     o.well_formed = false;
@@ -145,7 +149,7 @@ pub fn oracle(st: &[u8], len: usize) -> Oracle {
             break;
         }
         let total = 1 + b as usize;
-        if p + total > len {
+        if p + total > N {
             break;
         }
         if k == MAXREC {
@@ -171,40 +175,33 @@ pub enum Proto {
     Drain,
 }
 
-/// K20.3 / K20.4: chunking invariance of MessageBufReader, for every stream of N bytes, every
-/// logical length <= N, every split into three chunks, small-buffer and 1024-buffer readers.
-pub fn chunking<S: Src, const N: usize>(s: &mut S, proto: Proto, small_buf: Option<usize>) {
+/// K20.3 / K20.4: chunking invariance of MessageBufReader. Stream = N arbitrary bytes constrained to
+/// the writer's format; delivered in reads of C bytes (the consumers read fixed-size chunks; the last
+/// read is short), into a reader whose buffer starts with B bytes (public small-buffer constructor;
+/// B == C is the shape of the real 1024/1024 configuration, B > C exercises the stale-byte path,
+/// a record longer than B exercises growth). Sizes are concrete per instantiation (symbolic
+/// allocation sizes make CBMC model every Vec as an array of symbolic extent: >10 min), contents and
+/// therefore record boundaries are symbolic: every placement of record ends relative to chunk ends
+/// is covered.
+pub fn chunking<S: Src, const N: usize, const C: usize, const B: usize>(s: &mut S, proto: Proto) {
     let mut st = [0u8; N];
     let mut i = 0;
     while i < N {
         st[i] = s.u8();
         i += 1;
     }
-    let len = s.usize();
-    s.assume(len <= N);
-    let c1 = s.usize();
-    let c2 = s.usize();
-    s.assume(c1 <= c2 && c2 <= len);
-    let o = oracle(&st, len);
+    let o = oracle::<N>(&st);
     s.assume(o.well_formed);
 
-    let mut reader = match small_buf {
-        Some(b) => MessageBufReader::new_with_data(vec![0u8; b], b),
-        None => MessageBufReader::new(),
-    };
-    let cuts = [0usize, c1, c2, len];
+    let mut reader = MessageBufReader::new_with_data(vec![0u8; B], B);
     let mut got = 0usize; // records returned so far
     let mut pos = 0usize; // bytes covered by returned records
     let mut stopped_early = false;
-    let mut ci = 0;
-    while ci < 3 {
-        let a = cuts[ci];
-        let b = cuts[ci + 1];
-        ci += 1;
-        if a == b {
-            // a file read of length 0 is EOF for the consumers; empty chunks are simply not produced
-            continue;
-        }
+    let mut consulted_at_chunk_end = false;
+    let probe = s.usize(); // one symbolic byte position per record stands for all of them
+    let mut a = 0usize;
+    while a < N {
+        let b = if a + C < N { a + C } else { N };
         reader.append_next_buf(&st[a..b]);
         let mut guard = 0;
         loop {
@@ -216,12 +213,8 @@ pub fn chunking<S: Src, const N: usize>(s: &mut S, proto: Proto, small_buf: Opti
             if got < o.n {
                 let (rs, re) = (o.start[got], o.end[got]);
                 s.check(v.len() == re - rs, "record length differs from reference decoder");
-                if v.len() == re - rs {
-                    let mut j = 0;
-                    while j < v.len() {
-                        s.check(v[j] == st[rs + j], "record bytes differ from stream bytes");
-                        j += 1;
-                    }
+                if v.len() == re - rs && probe < v.len() {
+                    s.check(v[probe] == st[rs + probe], "record bytes differ from stream bytes");
                 }
                 pos = re;
             }
@@ -235,44 +228,48 @@ pub fn chunking<S: Src, const N: usize>(s: &mut S, proto: Proto, small_buf: Opti
         if proto == Proto::LogScan && reader.is_empty() {
             // the consumer treats this as end-of-log: legitimate only if the stream really has a zero
             // length (or nothing at all) at the position reached
-            let at_end = pos >= len || st[pos] == 0;
-            vcover!(s, pos == b, "is_empty() consulted with every delivered byte consumed");
+            let at_end = pos >= N || st[pos] == 0;
+            if pos == b {
+                consulted_at_chunk_end = true;
+            }
             if !at_end {
                 stopped_early = true;
+                if pos == b {
+                    s.tag("record-ends-at-chunk-end");
+                }
             }
             break;
         }
+        a = b;
     }
     vcover!(s, o.n >= 2, "at least two complete records");
-    vcover!(s, o.n >= 1 && o.stop < len && st[o.stop] == 0, "records then zero length then stale tail");
-    vcover!(s, o.n >= 1 && c1 == o.end[0] && c1 < len, "record ends exactly at chunk end");
+    vcover!(s, o.n >= 1 && o.stop < N && st[o.stop] == 0, "records then zero length then stale tail");
+    vcover!(s, o.n >= 2 && o.end[0] == C, "record ends exactly at chunk end and another follows");
+    vcover!(s, consulted_at_chunk_end, "is_empty() consulted with every delivered byte consumed");
     s.check(!stopped_early, "end-of-stream reported although a non-zero length follows (stops earlier than the first zero length)");
     if !stopped_early {
-        // everything delivered: every complete record before the first zero length was returned
-        let delivered_all = match proto {
-            Proto::Drain => true,
-            Proto::LogScan => true,
-        };
-        if delivered_all {
-            // under LogScan the loop may have stopped at a legitimate end marker before later chunks
-            // were appended; the oracle stops there too.
-            s.check(got == o.n, "number of records differs from reference decoder");
-        }
+        s.check(got == o.n, "number of records differs from reference decoder");
     }
     std::mem::forget(reader);
 }
 
-pub fn k20_3_drain_small4<S: Src>(s: &mut S) {
-    chunking::<S, 10>(s, Proto::Drain, Some(4))
+pub fn k20_3_drain_n8_c4_b8<S: Src>(s: &mut S) {
+    chunking::<S, 8, 4, 8>(s, Proto::Drain)
 }
-pub fn k20_3_drain_small8<S: Src>(s: &mut S) {
-    chunking::<S, 12>(s, Proto::Drain, Some(8))
+pub fn k20_3_drain_n8_c4_b4<S: Src>(s: &mut S) {
+    chunking::<S, 8, 4, 4>(s, Proto::Drain)
 }
-pub fn k20_4_logscan_small4<S: Src>(s: &mut S) {
-    chunking::<S, 10>(s, Proto::LogScan, Some(4))
+pub fn k20_3_drain_n9_c3_b4<S: Src>(s: &mut S) {
+    chunking::<S, 9, 3, 4>(s, Proto::Drain)
 }
-pub fn k20_4_logscan_small8<S: Src>(s: &mut S) {
-    chunking::<S, 12>(s, Proto::LogScan, Some(8))
+pub fn k20_4_logscan_n8_c4_b8<S: Src>(s: &mut S) {
+    chunking::<S, 8, 4, 8>(s, Proto::LogScan)
+}
+pub fn k20_4_logscan_n8_c4_b4<S: Src>(s: &mut S) {
+    chunking::<S, 8, 4, 4>(s, Proto::LogScan)
+}
+pub fn k20_4_logscan_n9_c3_b4<S: Src>(s: &mut S) {
+    chunking::<S, 9, 3, 4>(s, Proto::LogScan)
 }
 
 #[cfg(kani)]
@@ -283,48 +280,26 @@ mod proofs {
     fn k20_1a_size() {
         super::k20_1a_size(&mut KSrc)
     }
-    #[kani::proof]
-    #[kani::unwind(11)]
-    #[kani::stub(std::backtrace::Backtrace::capture, bt_stub)]
-    fn k20_1b_roundtrip() {
-        super::k20_1b_roundtrip(&mut KSrc)
+    macro_rules! p {
+        ($n:ident, $u:literal) => {
+            #[kani::proof]
+            #[kani::unwind($u)]
+            #[kani::stub(std::backtrace::Backtrace::capture, bt_stub)]
+            #[kani::stub(<anyhow::Error as std::ops::Drop>::drop, anyhow_drop_stub)]
+            fn $n() {
+                super::$n(&mut KSrc)
+            }
+        };
     }
-    #[kani::proof]
-    #[kani::unwind(11)]
-    #[kani::stub(std::backtrace::Backtrace::capture, bt_stub)]
-    fn k20_1c_offset() {
-        super::k20_1c_offset(&mut KSrc)
-    }
-    #[kani::proof]
-    #[kani::unwind(12)]
-    #[kani::stub(std::backtrace::Backtrace::capture, bt_stub)]
-    fn k20_2_reader_window() {
-        super::k20_2_reader_window(&mut KSrc)
-    }
-    #[kani::proof]
-    #[kani::unwind(18)]
-    #[kani::stub(std::backtrace::Backtrace::capture, bt_stub)]
-    fn k20_3_drain_small4() {
-        super::k20_3_drain_small4(&mut KSrc)
-    }
-    #[kani::proof]
-    #[kani::unwind(18)]
-    #[kani::stub(std::backtrace::Backtrace::capture, bt_stub)]
-    fn k20_3_drain_small8() {
-        super::k20_3_drain_small8(&mut KSrc)
-    }
-    #[kani::proof]
-    #[kani::unwind(18)]
-    #[kani::stub(std::backtrace::Backtrace::capture, bt_stub)]
-    fn k20_4_logscan_small4() {
-        super::k20_4_logscan_small4(&mut KSrc)
-    }
-    #[kani::proof]
-    #[kani::unwind(18)]
-    #[kani::stub(std::backtrace::Backtrace::capture, bt_stub)]
-    fn k20_4_logscan_small8() {
-        super::k20_4_logscan_small8(&mut KSrc)
-    }
+    p!(k20_1b_roundtrip, 11);
+    p!(k20_1c_offset, 11);
+    p!(k20_2_reader_window, 12);
+    p!(k20_3_drain_n8_c4_b8, 10);
+    p!(k20_3_drain_n8_c4_b4, 10);
+    p!(k20_3_drain_n9_c3_b4, 11);
+    p!(k20_4_logscan_n8_c4_b8, 10);
+    p!(k20_4_logscan_n8_c4_b4, 10);
+    p!(k20_4_logscan_n9_c3_b4, 11);
 }
 
 #[cfg(not(kani))]
@@ -334,12 +309,13 @@ pub fn replay(name: &str, s: &mut RSrc) -> bool {
         "k20_1b_roundtrip" => k20_1b_roundtrip(s),
         "k20_1c_offset" => k20_1c_offset(s),
         "k20_2_reader_window" => k20_2_reader_window(s),
-        "k20_3_drain_small4" => k20_3_drain_small4(s),
-        "k20_3_drain_small8" => k20_3_drain_small8(s),
-        "k20_4_logscan_small4" => k20_4_logscan_small4(s),
-        "k20_4_logscan_small8" => k20_4_logscan_small8(s),
+        "k20_3_drain_n8_c4_b8" => k20_3_drain_n8_c4_b8(s),
+        "k20_3_drain_n8_c4_b4" => k20_3_drain_n8_c4_b4(s),
+        "k20_3_drain_n9_c3_b4" => k20_3_drain_n9_c3_b4(s),
+        "k20_4_logscan_n8_c4_b8" => k20_4_logscan_n8_c4_b8(s),
+        "k20_4_logscan_n8_c4_b4" => k20_4_logscan_n8_c4_b4(s),
+        "k20_4_logscan_n9_c3_b4" => k20_4_logscan_n9_c3_b4(s),
         _ => return false,
     }
     true
 }
-
